@@ -24,7 +24,7 @@ with open(os.path.join(V, 'README.md'), 'w') as f:
         f.write("| %s | %s | %s | %s | %s | %s |\n" % r)
     n_str = sum(1 for r in rows if r[5] == 'yes')
     f.write("\n%d seeds; %d were caught by the checks as they stood, %d needed a strengthening first (recorded under\n"
-            "`needed_strengthening` in each meta.json).  What was missing was almost always *coverage of a generator* (a member\n"
-            "family, an operator, a model shape, a parameter regime, a second call), not the oracle; two misses exposed harness\n"
-            "defects (the replay environment lacked a counter, replay tolerance too coarse for tiny coefficients).\n" % (len(rows), len(rows) - n_str, n_str))
+            "`needed_strengthening` in each meta.json).  What was missing was mostly *coverage of a generator* (a member family,\n"
+            "an operator, a model shape, a parameter regime, a second call), sometimes a new claim, and several times a repair of\n"
+            "the machinery itself (stand-in gaps, harness crashes, non-terminating exploration, replay isolation): DESIGN.md 9.5.\n" % (len(rows), len(rows) - n_str, n_str))
 print(len(rows), "seeds")
